@@ -16,10 +16,11 @@
 package main
 
 import (
-	"time"
 	"context"
 	"fmt"
+	"runtime"
 	"strings"
+	"time"
 
 	"github.com/buildbarn/bb-storage/pkg/digest"
 	"google.golang.org/grpc/codes"
@@ -81,18 +82,18 @@ type inflightPut struct {
 }
 
 type wl struct {
-	inflight []*inflightPut
-	c    *run.Case
-	w    *run.Worker
-	r    *gen.Rng
-	cfg  asm.Config
-	s    *asm.Store
-	m    *model
-	ac   bool
-	id   uint64
-	inst string
-	ctx  context.Context
-	tag  uint64
+	inflight   []*inflightPut
+	c          *run.Case
+	w          *run.Worker
+	r          *gen.Rng
+	cfg        asm.Config
+	s          *asm.Store
+	m          *model
+	ac         bool
+	id         uint64
+	inst       string
+	ctx        context.Context
+	tag        uint64
 	noInflight bool
 }
 
@@ -301,6 +302,43 @@ func (x *wl) runWorkload(steps int, faults bool) {
 				}
 				if r.Bool() {
 					x.someOps(r.Range(1, 3))
+				}
+				if rel != nil && strings.HasPrefix(reached, "state.write") && r.Chance(2, 3) {
+					// Let only the parked writer through; the second state writer
+					// then parks at the same (still closed) gate while uploads
+					// continue: regions freed by the first writer are allocatable
+					// although the second state file is not durable yet.
+					// (The writer parked at the gate may be the put round or an
+					// earlier release round that woke up; either way one of the
+					// two proceeds and the other arrives at the gate next.)
+					s.Gate.ReleaseOne(point)
+					parked := false
+					for spin, idle := 0, 0; ; spin++ {
+						if s.Gate.Waiting(point) > 0 {
+							parked = true
+							break
+						}
+						if d, ok := s.M.Clock.NextFire(); ok {
+							s.M.Clock.Advance(d)
+							idle = 0
+							continue
+						}
+						if t.Finished() && (rel.Finished() || !s.ReleasePending()) {
+							idle++
+							if idle > 50 {
+								break
+							}
+						}
+						if spin%16 == 15 {
+							time.Sleep(20 * time.Microsecond)
+						} else {
+							runtime.Gosched()
+						}
+					}
+					if parked {
+						x.w.Count("second_state_writer_parked", 1)
+						x.someOps(r.Range(1, 4))
+					}
 				}
 				s.Gate.Open(point)
 			}
